@@ -181,5 +181,5 @@ func (dbcStream) Exhaustive(tier string) [][]string {
 			res = append(res, sc)
 		}
 	}
-	return res
+	return append(res, dbcScanExhaustive(tier)...)
 }
